@@ -253,6 +253,19 @@ func typeMatches(t string, v any) bool {
 func numOf(x any) (float64, bool) { return jv.Num(x) }
 
 func (e *ev) evalNumber(s map[string]any, f float64, path string) (string, string) {
+	// the two integer formats of OpenAPI are ranges
+	if ty, _ := s["type"].(string); ty == "integer" {
+		switch s["format"] {
+		case "int32":
+			if f < -2147483648 || f > 2147483647 {
+				return "format", path
+			}
+		case "int64":
+			if f < -9223372036854775808 || f >= 9223372036854775808 {
+				return "format", path
+			}
+		}
+	}
 	exMin, _ := s["exclusiveMinimum"].(bool)
 	if _, ok := e.has(s, "exclusiveMinimum"); !ok {
 		exMin = false
